@@ -38,6 +38,7 @@ type Obligation struct {
 	CrossSolver string
 	rawSMT      string
 	noSplit     bool
+	skipSolve   bool
 	GuardCover  string
 }
 
@@ -141,6 +142,7 @@ type Unit struct {
 	fnConstOrder  []Term
 	axiomFacts    []string
 	localCells    []localCell
+	privateMemo   map[*ssa.Function]map[ssa.Value]bool
 	implOf        string
 	coverStatus   string
 	exitPCs       []Term
